@@ -36,6 +36,7 @@ type Step struct {
 	Steps    []Step `json:"steps,omitempty"`
 	Tag      string `json:"tag,omitempty"`
 	Suite    bool   `json:"suite,omitempty"` // sub: the subtest function is declared in the non-test file suite.go of the package
+	FromExec int    `json:"from_execution,omitempty"` // skip: only from this execution of the test on (-count)
 }
 
 type Node struct {
